@@ -95,6 +95,7 @@ def replay(ctx, binary, header, cases, name):
 
 
 def tlc_trace(ctx, cfg, rows, tag):
+    cfg = cfg.replace(".cfg", CFG_SFX.get(ctx._c06_cat, "") + ".cfg")
     """Run Trace_Coerce with cfg over rows (chunked, chunks in parallel); returns list of TLCResult."""
     if not rows:
         return []
@@ -112,6 +113,7 @@ def tlc_trace(ctx, cfg, rows, tag):
         return list(ex.map(one, enumerate(parts)))
 
 
+CFG_SFX = {1: "", 2: "_c2"}  # configuration files of the two catalog schemas
 PER_KEY = 2  # replay files / VIOLATION lines per distinct key (the rest is counted)
 
 
@@ -151,24 +153,25 @@ def report(ctx, header, cases_by_id, o, v):
                         "response": o.get("resp", "")},
            "spec": {"accept": v["want"], "offending_paths": v["errs"], "kinds": v["kinds"]}}
     req = "query=%s variables=%s" % (o["query"], o["vars"] if c["case"]["vm"] != "none" else "<no variables member>")
+    at = "" if c["case"]["pos"] == "same" else "/" + c["case"]["pos"]  # where the variable is used, part of every key
     if o["stage"] == "panic":
         violation(ctx, panic_key(o), "panic in the variables pipeline (%s): %s; %s" % (o["who"], o["msg"][:200], req), rep)
         return
     if not v["acceptOK"]:
         if o["acc"]:
             for k in sorted(v["kinds"]):
-                violation(ctx, "accept:%s:%s" % (k, o["who"]),
+                violation(ctx, "accept:%s%s:%s" % (k, at, o["who"]),
                               "%s ACCEPTED variables that are not coercible (%s at %s); %s; forwarded=%s" % (
                                   o["who"], k, ",".join(v["errs"]), req, o.get("sent", "")[:300]), rep)
         else:
-            violation(ctx, "reject:%s:%s:%s" % (o["who"], o["stage"], slug(o["msg"])),
+            violation(ctx, "reject%s:%s:%s:%s" % (at, slug(o["msg"]), o["stage"], o["who"]),
                           "%s REJECTED coercible variables at stage %s: %s; %s" % (o["who"], o["stage"], o["msg"][:300], req), rep)
         return
     if not v["noEchoOK"]:
         violation(ctx, "echo:%s" % slug(o["msg"]),
                       "variable content echoed although DisableExposingVariablesContent is set: %s; %s" % (o["msg"][:300], req), rep)
     if not v["namesVarOK"]:
-        violation(ctx, "msg:novar:%s" % slug(o["msg"]),
+        violation(ctx, "msg:novar%s:%s" % (at, slug(o["msg"])),
                       "rejection (%s, stage %s) does not name the offending variable: %r; %s" % (o["who"], o["stage"], o["msg"][:300], req), rep)
     elif not v["namesPathOK"]:
         names = [x["name"] for x in c["case"]["vars"]]
@@ -246,6 +249,7 @@ def run_replay(ctx, binary):
         rep = json.load(f)
     case = rep["case"]
     header = case["header"]
+    ctx._c06_cat = header["header"].get("cat", 1)
     c = {"id": case_id(case["case"]), "case": case["case"], "expected": {"accept": case["spec"]["accept"]}}
     obs = replay(ctx, binary, header, [c], "replay")
     for o in obs:
@@ -263,23 +267,36 @@ def run(ctx):
     binary = ctx.build("vars")
     if ctx.replay_in:
         return run_replay(ctx, binary)
-    base, deep = ("2", "3") if quick else ("3w", "4w")
-    # ---- 1./2. model checking of the laws of the definition over the whole case space + generation --------
-    header, all_base = generate(ctx, "Gen_Coerce_%s.cfg" % base, "mc-laws+gen-D" + base)
-    _, all_deep = generate(ctx, "Gen_Coerce_%s.cfg" % deep, "mc-laws+gen-D" + deep)
-    extra_ids = sorted(set(all_deep) - set(all_base))
-    rng.shuffle(extra_ids)
-    nextra = 2500 if quick else 10000
-    chosen = sorted(all_base.values(), key=lambda c: c["id"]) + [all_deep[i] for i in sorted(extra_ids[:nextra])]
-    ctx.log("cases: %d exhaustive at menu depth %s + %d of %d further cases of depth %s (seed %d)" % (
-        len(all_base), base, min(nextra, len(extra_ids)), len(extra_ids), deep, ctx.seed))
-    vacuity(ctx, header, chosen)
-    by_id = {c["id"]: c for c in chosen}
-    # ---- 3. replay ------------------------------------------------------------------------------------------
-    obs = replay(ctx, binary, header, chosen, "main")
-    # ---- 4. validation --------------------------------------------------------------------------------------
-    nvalid, nflag = validate(ctx, header, by_id, obs, "main")
-    ctx.log("observations: %d, validated strictly: %d, disagreeing with the specification: %d" % (len(obs), nvalid, nflag))
+    base, deep = ("2", "3") if quick else ("3", "4w")
+    chosen, obs, by_id, nvalid, nflag, scope = [], [], {}, 0, 0, []
+    sampled = False
+    for cat in (1, 2):
+        ctx._c06_cat = cat
+        sfx = CFG_SFX[cat]
+        # ---- 1./2. model checking of the laws of the definition over the whole case space + generation ----
+        header, all_base = generate(ctx, "Gen_Coerce_%s%s.cfg" % (base, sfx), "mc-laws+gen-D%s-cat%d" % (base, cat))
+        _, all_deep = generate(ctx, "Gen_Coerce_%s%s.cfg" % (deep, sfx), "mc-laws+gen-D%s-cat%d" % (deep, cat))
+        extra_ids = sorted(set(all_deep) - set(all_base))
+        rng.shuffle(extra_ids)
+        nextra = (2500 if quick else 30000) if cat == 1 else (1000 if quick else 10000)
+        sampled = sampled or len(extra_ids) > nextra
+        cs = sorted(all_base.values(), key=lambda c: c["id"]) + [all_deep[i] for i in sorted(extra_ids[:nextra])]
+        ctx.log("catalog %d: %d cases exhaustive at menu depth %s + %d of %d further cases of depth %s (seed %d)" % (
+            cat, len(all_base), base, min(nextra, len(extra_ids)), len(extra_ids), deep, ctx.seed))
+        scope.append("catalog %d: all %d cases of menu depth %s + %d of %d further cases of depth %s" % (
+            cat, len(all_base), base, min(nextra, len(extra_ids)), len(extra_ids), deep))
+        vacuity(ctx, header, cs)
+        ids = {c["id"]: c for c in cs}
+        # ---- 3. replay ----
+        ob = replay(ctx, binary, header, cs, "main-c%d" % cat)
+        # ---- 4. validation ----
+        nv, nf = validate(ctx, header, ids, ob, "main-c%d" % cat)
+        ctx.log("catalog %d: observations: %d, validated strictly: %d, disagreeing with the specification: %d" % (cat, len(ob), nv, nf))
+        chosen += cs
+        obs += ob
+        by_id.update(ids)
+        nvalid += nv
+        nflag += nf
     # ---- evidence -------------------------------------------------------------------------------------------
     agree_acc = [o for o in obs if o["who"] == "engine" and o["acc"] and by_id[o["id"]]["expected"]["accept"]]
     agree_rej = [o for o in obs if o["who"] == "engine" and not o["acc"] and not by_id[o["id"]]["expected"]["accept"]]
@@ -305,9 +322,8 @@ def run(ctx):
         "spec_accepts": sum(1 for c in chosen if c["expected"]["accept"]),
         "spec_rejects": sum(1 for c in chosen if not c["expected"]["accept"]),
         "samples": samples,
-        "exhaustive": len(extra_ids) <= nextra,
-        "exhaustive_scope": "all cases of menu depth %s; depth %s %s" % (
-            base, deep, "sampled by seed" if len(extra_ids) > nextra else "complete"),
+        "exhaustive": not sampled,
+        "exhaustive_scope": "; ".join(scope) + ("; the further cases are a seed-chosen sample" if sampled else ""),
         "invariants_on_observations": ["InvAccept", "InvNamesVar", "InvNamesPath", "InvNoEcho"],
     })
     ctx.assumptions += [
